@@ -59,9 +59,9 @@ def run(ctx):
     ctx.tlc_expect_ok("BatcherProto", "BatcherProto_base.cfg", timeout=900, deadlock=False, name="BatcherProto/no-stop")
     ctx.tlc_expect_ok("BatcherProto", "BatcherProto_base.cfg", timeout=900, deadlock=False,
                       overrides={"Sizes": "{1, 2}", "BatchBytes": "3", "BatchCount": "0"}, name="BatcherProto/bytes")
-    ctx.tlc_expect_ok("BatcherProto", "BatcherProto_stop.cfg", timeout=900, deadlock=False,
-                      overrides={"SendUnderLock": "TRUE"}, name="BatcherProto/stop send-under-lock")
-    d9 = ctx.tlc("BatcherProto", "BatcherProto_stop.cfg", timeout=600, deadlock=False, name="BatcherProto/stop send-after-unlock (mutant)")
+    ctx.tlc_expect_ok("BatcherProto", "BatcherProto_stop.cfg", timeout=900, deadlock=False, name="BatcherProto/stop (send under the lock)")
+    d9 = ctx.tlc("BatcherProto", "BatcherProto_stop.cfg", timeout=600, deadlock=False, overrides={"SendUnderLock": "FALSE"},
+                 name="BatcherProto/stop send-after-unlock (mutant = the defect D9 repaired in 08b19bf)")
     if d9.ok or d9.violated != "StopSafe":
         raise vlib.Infra("spec with the send after mu.Unlock does not reach the closed-channel send (violated=%s)" % d9.violated)
     # 2a. direct scenarios -> trace validation
